@@ -514,32 +514,36 @@ package moss
 //@   requires readOnlyMode() ==> flag == 0
 
 //@ func (s *Store) createNextFileLOCKED() (string, File, error)
-//@   props C18
-//@   attr obligations call-requires
-//@   attr only-labels notReadOnly readOnlyFlag
+//@   props C18 C06
+//@   attr obligations call-requires ensures
+//@   attr only-labels footerKept notReadOnly readOnlyFlag
 //@   requires @notReadOnly !readOnlyMode()
 //@   modifies *
+//@   ensures @footerKept s.footer == old(s.footer)
 
 //@ func (s *Store) startFileLOCKED() (*FileRef, File, error)
-//@   props C18
-//@   attr obligations call-requires
-//@   attr only-labels notReadOnly readOnlyFlag
+//@   props C18 C06
+//@   attr obligations call-requires ensures
+//@   attr only-labels footerKept notReadOnly readOnlyFlag
 //@   requires @notReadOnly !readOnlyMode()
 //@   modifies *
+//@   ensures @footerKept s.footer == old(s.footer)
 
 //@ func (s *Store) startOrReuseFile() (fref *FileRef, file File, err error)
-//@   props C18
-//@   attr obligations call-requires
-//@   attr only-labels notReadOnly readOnlyFlag
+//@   props C18 C06
+//@   attr obligations call-requires ensures
+//@   attr only-labels footerKept notReadOnly readOnlyFlag
 //@   requires @notReadOnly !readOnlyMode()
 //@   modifies *
+//@   ensures @footerKept s.footer == old(s.footer)
 
 //@ func (s *Store) removeFileOnClose(fref *FileRef) (os.FileInfo, error)
-//@   props C18
-//@   attr obligations call-requires
-//@   attr only-labels notReadOnly readOnlyFlag
+//@   props C18 C06
+//@   attr obligations call-requires ensures
+//@   attr only-labels footerKept notReadOnly readOnlyFlag
 //@   requires @notReadOnly !readOnlyMode()
 //@   modifies *
+//@   ensures @footerKept s.footer == old(s.footer)
 
 //@ func (s *Store) removeFileOnClose$1()
 //@   props C18
@@ -557,25 +561,28 @@ package moss
 //@   modifies *
 
 //@ func (s *Store) compact(footer *Footer, partialCompactStart int, higher Snapshot, persistOptions StorePersistOptions) error
-//@   props C18
-//@   attr obligations call-requires
-//@   attr only-labels notReadOnly readOnlyFlag
+//@   props C18 C06
+//@   attr obligations call-requires ensures
+//@   attr only-labels unpublished notReadOnly readOnlyFlag
 //@   requires @notReadOnly !readOnlyMode()
 //@   modifies *
+//@   ensures @unpublished result != nil ==> s.footer == old(s.footer)
 
 //@ func (s *Store) compactMaybe(higher Snapshot, persistOptions StorePersistOptions) (bool, error)
-//@   props C18
-//@   attr obligations call-requires
-//@   attr only-labels notReadOnly readOnlyFlag modeLinked
+//@   props C18 C06
+//@   attr obligations call-requires ensures
+//@   attr only-labels unpublished notReadOnly readOnlyFlag modeLinked
 //@   requires @modeLinked s != nil && s.options != nil && readOnlyMode() == s.options.CollectionOptions.ReadOnly
 //@   modifies *
+//@   ensures @unpublished r1 != nil || !r0 ==> s.footer == old(s.footer)
 
 //@ func (s *Store) persist(higher Snapshot, persistOptions StorePersistOptions) (Snapshot, error)
-//@   props C18
-//@   attr obligations call-requires
-//@   attr only-labels notReadOnly readOnlyFlag modeLinked
+//@   props C18 C06
+//@   attr obligations call-requires ensures
+//@   attr only-labels unpublished notReadOnly readOnlyFlag modeLinked
 //@   requires @modeLinked s != nil && s.options != nil && readOnlyMode() == s.options.CollectionOptions.ReadOnly
 //@   modifies *
+//@   ensures @unpublished r1 != nil ==> s.footer == old(s.footer)
 
 //@ func (s *Store) Persist(higher Snapshot, persistOptions StorePersistOptions) (Snapshot, error)
 //@   props C18
@@ -715,8 +722,6 @@ package moss
 
 //@ func (slocs SegmentLocs) AddRef()
 //@   trusted reference counts of the mappings (C15); the locations themselves are untouched
-//@ func (f *Footer) DecRef()
-//@   trusted reference counts (C15)
 
 //@ func (s *Store) revertToSnapshot(revertToFooter *Footer, options StorePersistOptions) (rv *Footer, err error)
 //@   props C12 C11
@@ -933,3 +938,111 @@ package moss
 //@   loop 1: modifies ioFailed, unsynced
 //@   loop 1: invariant true
 //@   loop 1: latch @carried ioFailed && !atHead(ioFailed) ==> err != nil
+
+// ---- reference counts (C15, C02) ------------------------------------------------------------------------------
+
+// Callbacks registered on a FileRef: the only ones moss registers
+// (removeFileOnClose) merely spawn a goroutine; assumed to leave the
+// state under contract alone.
+//@ func FileRef.beforeCloseCallbacks
+//@   ensures true
+//@ func FileRef.afterCloseCallbacks
+//@   ensures true
+//@ func File.Close
+//@   modifies ioFailed
+//@   ensures true
+
+//@ func (r *FileRef) AddRef() File
+//@   props C15
+//@   modifies r.refs
+//@   ensures @count r != nil ==> r.refs == old(r.refs) + 1 && result == r.file
+//@   ensures @nil r == nil ==> result == nil
+
+//@ func (r *FileRef) DecRef() (err error)
+//@   props C15
+//@   requires @live r == nil || (r.refs >= 1 && r.file != nil)
+//@   modifies r.refs, r.beforeCloseCallbacks, r.afterCloseCallbacks, r.file, ioFailed
+//@   ensures @count r != nil ==> r.refs == old(r.refs) - 1
+//@   ensures @open r != nil && r.refs > 0 ==> r.file == old(r.file)
+//@   ensures @closed r != nil && r.refs <= 0 ==> r.file == nil
+//@   loop 1: modifies ioFailed
+//@   loop 1: invariant r.refs == old(r.refs) - 1 && r.file == old(r.file)
+//@   loop 2: modifies ioFailed
+//@   loop 2: invariant r.refs == old(r.refs) - 1
+
+//@ func (r *mmapRef) AddRef() *mmapRef
+//@   props C15
+//@   modifies r.refs
+//@   ensures @count result == r && (r != nil ==> r.refs == old(r.refs) + 1)
+
+//@ func (r *mmapRef) DecRef() error
+//@   props C15
+//@   requires @live r == nil || (r.refs >= 1 && (r.fref == nil || (r.fref.refs >= 1 && r.fref.file != nil)))
+//@   modifies r.refs, r.mm, elems(r.mm), r.buf, r.fref, heap(FileRef.refs), heap(FileRef.beforeCloseCallbacks), heap(FileRef.afterCloseCallbacks), heap(FileRef.file), ioFailed
+//@   ensures @count r != nil ==> r.refs == old(r.refs) - 1
+//@   ensures @mapped r != nil && r.refs > 0 ==> r.buf == old(r.buf) && r.fref == old(r.fref) && (old(r.fref) != nil ==> old(r.fref).refs == old(old(r.fref).refs))
+//@   ensures @released r != nil && r.refs <= 0 ==> r.buf == nil && r.fref == nil && (old(r.fref) != nil ==> old(r.fref).refs == old(old(r.fref).refs) - 1)
+
+//@ func (f *Footer) AddRef()
+//@   props C15
+//@   requires f != nil
+//@   modifies f.refs
+//@   ensures @count f.refs == old(f.refs) + 1
+
+//@ func (ss *segmentStack) addRef()
+//@   props C15
+//@   requires ss != nil
+//@   modifies ss.refs
+//@   ensures @count ss.refs == old(ss.refs) + 1
+
+// Footers form trees along ChildFooters (no sharing, no cycles): a ghost depth
+// grows by one per level and distinct names lead to distinct footers.
+// Assumed, not proved.
+//@ pure abstract func footerDepth(f *Footer) int
+//@ assume-invariant footerTree: forall f *Footer, c string :: has(f.ChildFooters, c) ==> footerDepth(f.ChildFooters[c]) == footerDepth(f) + 1
+//@ assume-invariant footerNoSharing: forall f *Footer, c string, d string :: has(f.ChildFooters, c) && has(f.ChildFooters, d) && c != d ==> f.ChildFooters[c] != f.ChildFooters[d]
+
+//@ func (slocs SegmentLocs) DecRef()
+//@   trusted releases one count on the mapping of every location (exact accounting over shared mappings and files is not decided by contracts)
+//@   modifies heap(mmapRef.refs), heap(mmapRef.buf), heap(mmapRef.fref), heap(mmapRef.mm), heap(FileRef.refs), heap(FileRef.file), heap(FileRef.beforeCloseCallbacks), heap(FileRef.afterCloseCallbacks), ioFailed
+
+// One count less; at zero the footer lets go of its segment locations and of
+// the one count it holds on every child footer (each exactly once), and of
+// nothing else at its level or above.
+//@ func (f *Footer) DecRef()
+//@   props C15 C02
+//@   requires f != nil
+//@   modifies heap(Footer.refs), heap(Footer.SegmentLocs), heap(Footer.ss), heap(Footer.ChildFooters), heap(mmapRef.refs), heap(mmapRef.buf), heap(mmapRef.fref), heap(mmapRef.mm), heap(FileRef.refs), heap(FileRef.file), heap(FileRef.beforeCloseCallbacks), heap(FileRef.afterCloseCallbacks), ioFailed
+//@   ensures @count f.refs == old(f.refs) - 1
+//@   ensures @kept f.refs > 0 ==> f.SegmentLocs == old(f.SegmentLocs) && f.ss == old(f.ss) && f.ChildFooters == old(f.ChildFooters)
+//@   ensures @released f.refs <= 0 ==> len(f.SegmentLocs) == 0 && f.ss == nil && f.ChildFooters == nil
+//@   ensures @children f.refs <= 0 ==> (forall c string :: old(has(f.ChildFooters, c)) ==> old(f.ChildFooters[c]).refs == old(f.ChildFooters[c].refs) - 1)
+//@   ensures @othersKept forall g *Footer :: g != f && footerDepth(g) <= footerDepth(f) ==> g.refs == old(g.refs) && g.ChildFooters == old(g.ChildFooters) && g.SegmentLocs == old(g.SegmentLocs) && g.ss == old(g.ss)
+//@   loop 1: modifies heap(Footer.refs), heap(Footer.SegmentLocs), heap(Footer.ss), heap(Footer.ChildFooters), heap(mmapRef.refs), heap(mmapRef.buf), heap(mmapRef.fref), heap(mmapRef.mm), heap(FileRef.refs), heap(FileRef.file), heap(FileRef.beforeCloseCallbacks), heap(FileRef.afterCloseCallbacks), ioFailed
+//@   loop 1: invariant f.refs == old(f.refs) - 1 && f.refs <= 0 && f.ChildFooters == old(f.ChildFooters) && len(f.SegmentLocs) == 0 && f.ss == nil
+//@   loop 1: invariant forall c string :: old(has(f.ChildFooters, c)) ==> old(f.ChildFooters[c]).refs == old(f.ChildFooters[c].refs) - ite(visited(c), 1, 0)
+//@   loop 1: invariant forall g *Footer :: g != f && footerDepth(g) <= footerDepth(f) ==> g.refs == old(g.refs) && g.ChildFooters == old(g.ChildFooters) && g.SegmentLocs == old(g.SegmentLocs) && g.ss == old(g.ss)
+//@   loop 1: invariant forall g *Footer, c string :: footerDepth(g) <= footerDepth(f) && has(g.ChildFooters, c) ==> g.ChildFooters[c] == old(g.ChildFooters[c])
+
+//@ func (ss *segmentStack) decRef()
+//@   props C15
+//@   requires ss != nil
+//@   modifies ss.refs, ss.lowerLevelSnapshot, heap(SnapshotWrapper.refCount), heap(SnapshotWrapper.ss), heap(SnapshotWrapper.closer), heap(CollectionStats.TotSnapshotInternalClose)
+//@   ensures @count ss.refs == old(ss.refs) - 1
+//@   ensures @kept ss.refs > 0 ==> ss.lowerLevelSnapshot == old(ss.lowerLevelSnapshot) &&
+//@       (ss.lowerLevelSnapshot != nil ==> ss.lowerLevelSnapshot.refCount == old(ss.lowerLevelSnapshot.refCount))
+//@   ensures @released ss.refs <= 0 ==> ss.lowerLevelSnapshot == nil &&
+//@       (old(ss.lowerLevelSnapshot) != nil ==> old(ss.lowerLevelSnapshot).refCount == old(ss.lowerLevelSnapshot.refCount) - 1)
+
+//@ func (w *SnapshotWrapper) Close() (err error)
+//@   props C15
+//@   requires w != nil
+//@   modifies w.refCount, w.ss, w.closer
+//@   ensures @count w.refCount == old(w.refCount) - 1
+
+//@ func (s *Store) snapshot() (*Footer, error)
+//@   props C15 C02
+//@   requires s != nil
+//@   modifies heap(Footer.refs)
+//@   ensures @ref r1 == nil && r0 == s.footer && (r0 != nil ==> r0.refs == old(r0.refs) + 1)
+//@   ensures @others forall g *Footer :: g != s.footer ==> g.refs == old(g.refs)
